@@ -218,6 +218,9 @@ pub fn judge_c04(cx: &DeliveryCtx, out: &mut RunOut) {
     if !finished(cx) {
         return;
     }
+    if cx.ix == 0 {
+        judge_c04_same_authenticator(cx, out);
+    }
     let (_, _, _, _, _, _, nanos) = refm::civil_of_instant(cx.msg.auth.instant_ns);
     if nanos != 0 {
         out.probe("t_subsecond");
@@ -279,6 +282,61 @@ pub fn judge_c04(cx: &DeliveryCtx, out: &mut RunOut) {
             }
         }
         _ => {}
+    }
+}
+
+/// One authenticator, several clocks (the low-level API behind `unstable`: a caller may prevalidate
+/// on arrival and validate after queueing, or retry with the same authenticator or a clone): each
+/// answer is the window's answer for the clock given, whatever was asked before. Judged only for
+/// requests the reference accepts (so nothing but the clock can refuse them).
+fn judge_c04_same_authenticator(cx: &DeliveryCtx, out: &mut RunOut) {
+    if *cx.expected != Verdict::Accept {
+        return;
+    }
+    let (t0, req) = match (cx.detail.instant, cx.wire.to_request()) {
+        (Some(t), Ok(r)) => (t, r),
+        _ => return,
+    };
+    let (parts, body) = req.into_parts();
+    let opts = SignatureOptions {
+        s3: cx.node.cfg.s3,
+        url_encode_form: cx.node.cfg.fold,
+    };
+    let (region, service) = (cx.node.cfg.region.clone(), cx.node.cfg.service.clone());
+    let w = refm::WINDOW_NS;
+    // clock − request instant, in this order on one authenticator (the last two on a clone)
+    let offsets: [i128; 6] = [0, w + 1, -(w + 1), w, 3600 * refm::NS, 0];
+    let r = catch_unwind(AssertUnwindSafe(move || {
+        let (cr, _, _) = CanonicalRequest::from_request_parts(parts, Bytes::from(body), opts).ok()?;
+        let a = cr.get_authenticator(&scratchstack_aws_signature::NO_ADDITIONAL_SIGNED_HEADERS).ok()?;
+        let b = a.clone();
+        let mut v = Vec::new();
+        for (i, off) in offsets.iter().enumerate() {
+            let who = if i < 4 {
+                &a
+            } else {
+                &b
+            };
+            v.push(who.prevalidate(&region, &service, libi::datetime_of(t0 + off), chrono::Duration::minutes(15)).map_err(|e| e.to_string()));
+        }
+        Some(v)
+    }));
+    let v = match r {
+        Ok(Some(v)) => v,
+        Ok(None) => return,
+        Err(p) => {
+            out.violate("C08", "no-panic", format!("prevalidate panicked: {}; {}", libi::panic_text(&p), ctx_line(cx)));
+            return;
+        }
+    };
+    out.probe("same_authenticator_several_clocks");
+    for (i, off) in offsets.iter().enumerate() {
+        let inside = off.abs() <= w;
+        let got_ok = v[i].is_ok();
+        if inside != got_ok {
+            out.violate("C04", "window-decides-on-every-call", format!("one authenticator asked {} times: with the clock at request instant {:+} ns (inside the window: {}) prevalidate says {:?} (answers so far: {:?}); {}", i + 1, off, inside, v[i], v.iter().map(|x| x.is_ok()).collect::<Vec<_>>(), ctx_line(cx)));
+            break;
+        }
     }
 }
 
@@ -649,6 +707,32 @@ pub fn judge_c12(cx: &DeliveryCtx, out: &mut RunOut) {
         match cx.out.err() {
             Some(e) if e.kind == "InvalidBodyEncoding" && e.status == 400 => {}
             _ => out.violate("C12", "undecodable-body-is-invalid-body-encoding-400", format!("reference: {}, library: {}; {}", r.name(), cx.out.short(), ctx_line(cx))),
+        }
+    }
+    // … and only then: a body that is not folded (folding off, or another content type), or that
+    // decodes, is never refused for its encoding or charset label (whatever else may be wrong with
+    // the request; "unspecified" = a known non-UTF-8 charset, which the statements do not decide)
+    if !matches!(cx.expected, Verdict::Refuse(Rule::BodyCharset | Rule::BodyEncoding) | Verdict::Unspecified(_)) {
+        if let Some(e) = cx.out.err() {
+            if e.kind == "InvalidBodyEncoding" {
+                out.violate("C12", "body-refused-for-encoding-only-when-folded-and-undecodable", format!("reference says {:?} (folded: {}), library: {}; {}", cx.expected, cx.detail.folded, cx.out.short(), ctx_line(cx)));
+            }
+        }
+    }
+    // The fold step in isolation (also when the message as issued is refused, i.e. when the baseline
+    // gives no jurisdiction): the library canonicalises the URL's own query like the reference does
+    // (so query canonicalisation as such is not the issue), yet with the body folded in its
+    // canonical query is not the reference's merged one.
+    if cx.detail.folded {
+        if let (Some(signed), Some(want)) = (&cx.detail.signed_headers, &cx.detail.canonical_query) {
+            let q = &cx.wire.target[cx.wire.path_end().min(cx.wire.target.len())..];
+            let q = q.strip_prefix(b"?").unwrap_or(q);
+            if let (Some(url_pairs), Ok(Ok(unf)), Ok(Ok(fol))) = (refm::rpairs(q), lib_canonical(cx.wire, cx.node.cfg.s3, false, signed), lib_canonical(cx.wire, cx.node.cfg.s3, true, signed)) {
+                out.probe("fold_step_isolated");
+                if unf.query == refm::rcanonq(&url_pairs) && fol.query != *want {
+                    out.violate("C12", "fold-merges-losslessly-else-body-hashed", format!("the URL's own query is canonicalised as the reference does ({:?}), but with the form body folded in the library's canonical query is {:?}, the reference's {:?}; {}", libi::truncate(&unf.query, 120), libi::truncate(&fol.query, 200), libi::truncate(want, 200), ctx_line(cx)));
+                }
+            }
         }
     }
     judge_component(cx, out, "C12", "fold-merges-losslessly-else-body-hashed", &[Rule::BodyCharset, Rule::BodyEncoding], true);
